@@ -33,7 +33,7 @@ namespace {
 
 // ---------------------------------------------------------------------------
 // scenario
-enum OpKind { OP_GET, OP_INSERT, OP_REMOVE, OP_QUIESCE, OP_SCAN, OP_SCAN_FROM, OP_SCAN_RANGE };
+enum OpKind { OP_GET, OP_INSERT, OP_REMOVE, OP_QUIESCE, OP_PAUSE_RESUME, OP_PAUSE, OP_RESUME, OP_BARRIER, OP_SCAN, OP_SCAN_FROM, OP_SCAN_RANGE };
 
 struct Op {
   OpKind kind = OP_GET;
@@ -86,6 +86,14 @@ Op parse_op(const std::string& t) {
     op.k1 = parse_hex(f.at(1));
   } else if (f[0] == "q") {
     op.kind = OP_QUIESCE;
+  } else if (f[0] == "pu") {
+    op.kind = OP_PAUSE_RESUME;
+  } else if (f[0] == "p") {
+    op.kind = OP_PAUSE;
+  } else if (f[0] == "u") {
+    op.kind = OP_RESUME;
+  } else if (f[0] == "b") {
+    op.kind = OP_BARRIER;
   } else if (f[0] == "s") {
     op.kind = OP_SCAN;
     op.fwd = f.at(1) == "f";
@@ -178,6 +186,8 @@ struct Harness final : vsched::HarnessCallbacks {
   std::vector<Event> events;             // completed + in-flight
   std::vector<int> cur_event;            // per thread index into events (or -1)
   std::vector<std::vector<HeldView>> held;  // per thread
+  std::vector<int> barriers_arrived, barriers_total;  // per thread
+  std::vector<char> thread_done;                       // per thread
   std::vector<Violation> violations;
   std::uint64_t violations_total = 0;
   std::set<std::string> outcomes;  // distinct observed histories
@@ -251,14 +261,20 @@ void reset_qsbr() {
       q.orphaned_previous_interval_dealloc_requests.load() != nullptr ||
       q.orphaned_current_interval_dealloc_requests.load() != nullptr ||
       !me.previous_interval_dealloc_requests.empty() || !me.current_interval_dealloc_requests.empty()) {
-    std::fprintf(stderr, "QSBR not idle between executions\n");
-    std::_Exit(vsched::EXIT_USAGE);
+    // cannot happen: check_qsbr_idle() at the end of the previous execution reported and repaired this
+    g_sched.fatal(vsched::EXIT_ORACLE_FATAL,
+                  "oracle C06: QSBR is not idle after all threads left (thread count, orphan lists or pending requests are off)");
   }
   q.state.store((std::uint64_t{1} << 32U) | 1U);  // epoch 0, 1 thread, 1 in previous
   me.last_seen_quiescent_state_epoch = unodb::qsbr_epoch{0};
   me.last_seen_epoch = unodb::qsbr_epoch{0};
   me.quiescent_states_since_epoch_change = 0;
 }
+
+// after every worker left and the controller resumed and quiesced twice, a correct QSBR is idle: one registered thread,
+// nothing orphaned, nothing pending.  Anything else is reported as a violation of this execution (so that its schedule
+// replays it) and forced back, so that the exploration can go on.
+void check_qsbr_idle();
 
 // ---------------------------------------------------------------------------
 // worker
@@ -349,6 +365,7 @@ void worker_main(int tid) {
   unodb::qsbr_per_thread::current_thread_instance = std::move(g_qsbr_instances[static_cast<std::size_t>(tid)]);
   g_sched.worker_enter(tid);
   const auto& prog = H.sc.threads[static_cast<std::size_t>(tid)];
+  bool paused = false;
   for (std::size_t i = 0; i < prog.size(); ++i) {
     const Op& op = prog[i];
     switch (op.kind) {
@@ -386,6 +403,35 @@ void worker_main(int tid) {
         unodb::this_thread().quiescent();
         break;
       }
+      case OP_PAUSE_RESUME: {
+        // the thread leaves QSBR and comes back (a thread exit followed by a thread start, as far as QSBR is concerned)
+        check_held_views(tid, "pause");
+        unodb::this_thread().qsbr_pause();
+        unodb::this_thread().qsbr_resume();
+        break;
+      }
+      case OP_PAUSE: {
+        check_held_views(tid, "pause");
+        unodb::this_thread().qsbr_pause();
+        paused = true;
+        break;
+      }
+      case OP_RESUME: {
+        unodb::this_thread().qsbr_resume();
+        paused = false;
+        break;
+      }
+      case OP_BARRIER: {
+        // barrier k opens once every thread whose program has at least k barriers has arrived at its k-th one or has
+        // finished: deep states are reached without spending scheduling deviations on the way
+        const int k = ++H.barriers_arrived[static_cast<std::size_t>(tid)];
+        g_sched.wait_until([k] {
+          for (std::size_t u = 0; u < H.barriers_total.size(); ++u)
+            if (H.barriers_total[u] >= k && H.barriers_arrived[u] < k && !H.thread_done[u]) return false;
+          return true;
+        });
+        break;
+      }
       case OP_SCAN:
       case OP_SCAN_FROM:
       case OP_SCAN_RANGE: {
@@ -397,7 +443,8 @@ void worker_main(int tid) {
     }
   }
   check_held_views(tid, "thread end");
-  unodb::this_thread().qsbr_pause();  // scheduled: what the TLS destructor would do
+  if (!paused) unodb::this_thread().qsbr_pause();  // scheduled: what the TLS destructor would do
+  H.thread_done[static_cast<std::size_t>(tid)] = true;
   g_sched.worker_finish();
 }
 
@@ -798,6 +845,26 @@ void sweep(const Content& expect_after) {
 }
 
 // ---------------------------------------------------------------------------
+void check_qsbr_idle() {
+  auto& q = unodb::qsbr::instance();
+  auto& me = unodb::this_thread();
+  const auto st = q.state.load();
+  const bool count_ok = unodb::qsbr_state::get_thread_count(st) == 1;
+  const bool lists_ok = q.orphaned_previous_interval_dealloc_requests.load() == nullptr &&
+                        q.orphaned_current_interval_dealloc_requests.load() == nullptr &&
+                        me.previous_interval_dealloc_requests.empty() && me.current_interval_dealloc_requests.empty();
+  if (count_ok && lists_ok) return;
+  if (!count_ok)
+    H.violation("C06", "C06/thread-count-final", "registered-thread count after all worker threads left is not 1");
+  if (!lists_ok)
+    H.violation("C06", "C06/lost-request", "deferred deallocation requests are still pending or orphaned after every worker thread left and the last thread quiesced twice");
+  me.previous_interval_dealloc_requests.clear();
+  me.current_interval_dealloc_requests.clear();
+  q.orphaned_previous_interval_dealloc_requests.store(nullptr);
+  q.orphaned_current_interval_dealloc_requests.store(nullptr);
+  q.state.store((std::uint64_t{1} << 32U) | 1U);
+}
+
 bool run_one(const std::vector<std::uint8_t>& prefix, const std::vector<vsched::PointRec>& expected) {
   reset_qsbr();
   H.blocks.clear();
@@ -808,6 +875,12 @@ bool run_one(const std::vector<std::uint8_t>& prefix, const std::vector<vsched::
   const int n = static_cast<int>(H.sc.threads.size());
   H.cur_event.assign(static_cast<std::size_t>(n), -1);
   H.held.assign(static_cast<std::size_t>(n), {});
+  H.barriers_arrived.assign(static_cast<std::size_t>(n), 0);
+  H.barriers_total.assign(static_cast<std::size_t>(n), 0);
+  H.thread_done.assign(static_cast<std::size_t>(n), 0);
+  for (int i = 0; i < n; ++i)
+    for (const auto& op : H.sc.threads[static_cast<std::size_t>(i)])
+      if (op.kind == OP_BARRIER) ++H.barriers_total[static_cast<std::size_t>(i)];
   g_sched.max_points = 50000;
   auto db = std::make_unique<Db>();
   H.db = db.get();
@@ -836,6 +909,7 @@ bool run_one(const std::vector<std::uint8_t>& prefix, const std::vector<vsched::
   unodb::this_thread().qsbr_resume();
   unodb::this_thread().quiescent();
   unodb::this_thread().quiescent();
+  check_qsbr_idle();
   post_execution_checks(init);
   {
     const tw::Tree t = tw::walk(*H.db);
